@@ -290,7 +290,18 @@ def run(R):
         env = dict(VERIF_SEED=R.seed, VERIF_N=count, VERIF_FIB=algo)
         if with_corpus:
             env["VERIF_CORPUS"] = os.path.join(vlib.VERIF, "corpus", "C17")
-        rc, out, trace = run_harness(R, env, "trace-" + algo, timeout=300 if R.quick else 1500)
+        # A wall-clock limit never decides a verdict: a run that hits it is repeated once with three times the limit, and if that
+        # also hits it the configuration is recorded as inconclusive (note), not as a failure. A crash of the harness is a failure.
+        limit = 600 if R.quick else 2400
+        rc, out, trace = run_harness(R, env, "trace-" + algo, timeout=limit)
+        timed_out = lambda rc, out: rc == 124 or "test timed out" in out or "[timeout after" in out
+        if rc != 0 and timed_out(rc, out):
+            R.notes.append("harness run (%s FIB) hit the %d s wall-clock limit (machine load?); repeated once with %d s" % (algo, limit, 3 * limit))
+            rc, out, trace = run_harness(R, env, "trace-" + algo, timeout=3 * limit)
+            if rc != 0 and timed_out(rc, out):
+                R.notes.append("harness run (%s FIB) hit the wall-clock limit again: this configuration is INCONCLUSIVE in this run (no verdict derived from it)" % algo)
+                R.coverage.setdefault("inconclusive", []).append(algo)
+                continue
         if rc != 0:
             R.oracle_failure("harness-crash", "the Go harness aborted (a panic outside the management goroutine, or a hang)",
                              dict(output=out[-3000:], fib=algo))
